@@ -18,11 +18,77 @@ pub enum LayerModel {
         is_match: Box<dyn Fn(&str) -> bool>,
         /// The implementation's own decision (hook H3) whether a match discards the tree.
         discards_tree: Box<dyn Fn(&str) -> bool>,
+        /// The same decision derived from the public API only.
+        matches_exhaustive: Box<dyn Fn(&str) -> bool>,
     },
     Filter {
         seed: u64,
         mode: u8,
     },
+}
+
+/// The alternatives a negation pattern is split into (top-level alternations are negated branch
+/// by branch), derived from the reference parse; falls back to the whole pattern.
+pub fn alternatives_of(p: &str) -> Vec<String> {
+    use crate::refmodel::parse::{self, Node, Seq};
+    use crate::refmodel::transform;
+    fn nontrivial(mut seq: &Seq) -> &Seq {
+        loop {
+            if seq.toks.len() == 1 {
+                match &seq.toks[0].node {
+                    Node::Alt(bs) if bs.len() == 1 => {
+                        seq = &bs[0];
+                        continue;
+                    },
+                    Node::Rep { body, lo: 1, hi: Some(1) } => {
+                        seq = body;
+                        continue;
+                    },
+                    _ => {},
+                }
+            }
+            return seq;
+        }
+    }
+    fn go(seq: &Seq, explicit: bool, out: &mut Vec<String>) {
+        let seq = nontrivial(seq);
+        if seq.toks.len() == 1 {
+            if let Node::Alt(bs) = &seq.toks[0].node {
+                for b in bs {
+                    go(b, explicit, out);
+                }
+                return;
+            }
+        }
+        let mut e = String::new();
+        transform::unparse_seq(seq, explicit, &mut e);
+        out.push(e);
+    }
+    match parse::parse(p) {
+        Ok(ast) if ast.notes.is_empty() && !ast.seq.toks.is_empty() => {
+            let mut out = Vec::new();
+            go(&ast.seq, transform::has_flags(&ast), &mut out);
+            if out.iter().all(|e| Glob::new(e).is_ok()) {
+                out
+            }
+            else {
+                vec![p.to_string()]
+            }
+        },
+        _ => vec![p.to_string()],
+    }
+}
+
+/// Independent decision (public API only): a candidate is discarded as a tree iff it matches an
+/// alternative of the negation that reports that it is always exhaustive.
+fn exhaustive_matcher(patterns: &[String]) -> Box<dyn Fn(&str) -> bool> {
+    let alts: Vec<Glob<'static>> = patterns
+        .iter()
+        .flat_map(|p| alternatives_of(p))
+        .filter_map(|e| Glob::new(&e).ok().map(Glob::into_owned))
+        .filter(|g| guarded(|| g.is_exhaustive()) == Some(wax::query::When::Always))
+        .collect();
+    Box::new(move |s| alts.iter().any(|g| guarded(|| g.is_match(s)).unwrap_or(false)))
 }
 
 pub struct Stack {
@@ -49,6 +115,7 @@ pub fn realize(specs: &[LayerSpec], tree_root: &Path) -> Option<Stack> {
                 models.push(LayerModel::Not {
                     is_match: Box::new(move |s| guarded(|| g.is_match(s)).unwrap_or(false)),
                     discards_tree: Box::new(move |s| probe.verif_residue(s) == Some(EntryResidue::Tree)),
+                    matches_exhaustive: exhaustive_matcher(std::slice::from_ref(p)),
                 });
                 logs.push(None);
             },
@@ -60,6 +127,7 @@ pub fn realize(specs: &[LayerSpec], tree_root: &Path) -> Option<Stack> {
                 models.push(LayerModel::Not {
                     is_match: Box::new(move |s| guarded(|| g2.is_match(s)).unwrap_or(false)),
                     discards_tree: Box::new(move |s| probe.verif_residue(s) == Some(EntryResidue::Tree)),
+                    matches_exhaustive: exhaustive_matcher(std::slice::from_ref(p)),
                 });
                 logs.push(None);
             },
@@ -75,6 +143,7 @@ pub fn realize(specs: &[LayerSpec], tree_root: &Path) -> Option<Stack> {
                 models.push(LayerModel::Not {
                     is_match: Box::new(move |s| guarded(|| any2.is_match(s)).unwrap_or(false)),
                     discards_tree: Box::new(move |s| probe.verif_residue(s) == Some(EntryResidue::Tree)),
+                    matches_exhaustive: exhaustive_matcher(ps),
                 });
                 logs.push(None);
             },
@@ -117,6 +186,9 @@ pub struct Sim {
     pub errors: Vec<MEntry>,
     /// Entries read from the file system (everything not strictly beneath a discarded tree).
     pub read: Vec<MEntry>,
+    /// Candidates for which the hooked tree/file decision of a negation differs from "matches an
+    /// always-exhaustive alternative".
+    pub tree_decision_mismatches: Vec<String>,
 }
 
 pub fn candidate_text(prefix: &[String], rel: &str) -> String {
@@ -143,6 +215,7 @@ pub fn simulate(
         tree_verdicts_on_non_directories: 0,
         errors: Vec::new(),
         read: Vec::new(),
+        tree_decision_mismatches: Vec::new(),
     };
     let prefix: Vec<String> = glob.map(|g| g.prefix.clone()).unwrap_or_default();
     for e in entries {
@@ -186,11 +259,14 @@ pub fn simulate(
         }
         for l in layers {
             match l {
-                LayerModel::Not { is_match, discards_tree } => {
+                LayerModel::Not { is_match, discards_tree, matches_exhaustive } => {
                     if is_match(&cand) {
                         kept = false;
-                        if discards_tree(&cand) {
+                        if matches_exhaustive(&cand) {
                             tree = true;
+                        }
+                        if matches_exhaustive(&cand) != discards_tree(&cand) {
+                            sim.tree_decision_mismatches.push(cand.clone());
                         }
                     }
                 },
